@@ -29,7 +29,9 @@ META = {
             'that needs the network is skipped with that reason) on every fixture under its testdata directory (copied into a temp root, presented at '
             'production path names its FileRequired accepts) and on seeded mutations (truncation, bit flips, line/chunk edits, type confusion, '
             'whole-document null/[]/{}/""/0, 10 000-deep nesting in JSON/XML/YAML/TOML, 1e99999 / 400-digit numbers, 70 000-byte lines, NUL, '
-            'invalid UTF-8, empty, random bytes). A recovered panic, a process-fatal runtime error, an Extract that has not returned 2 s after its '
+            'invalid UTF-8, empty, random bytes; for the zip-reading extractors also MEMBER-LEVEL mutations: valid archives whose metadata members are empty / '
+            'truncated / stripped of their name or version headers / deflate-corrupted). Every (inventory, error) that Extract returns is then handed to the REAL '
+            'filesystem.Run (one root, that file, that extractor) so that the engine\'s own consumption path runs on it. A recovered panic, a process-fatal runtime error, an Extract that has not returned 2 s after its '
             '10 s context deadline, or more than 512 MiB of heap in use is reported as VIOLATION with a self-contained replayable case line.',
     'note': 'The fuzz loop is SEARCH SUPPORT, NOT PROOF (evidence: coverage.unproved_support): absence of a finding is no guarantee. '
             '"Bounded time/memory" is a watchdog observation, never a theorem. The proved part is totality of the modelled parsers (C03 models) '
@@ -41,7 +43,7 @@ META = {
 # ---------------------------------------------------------------------------------------------------------------
 # HOOK for the coordinator: engine-level confinement theorems (C02_confined / C02_no_recover) and the modules that
 # have to be imported for the axiom audit to see them. Both lists are appended below; leave empty until they exist.
-ENGINE_THEOREMS = ['Scalibr.Walk.C02_confined', 'Scalibr.Walk.C02_panic_only_from_extractor']
+ENGINE_THEOREMS = ['Scalibr.Walk.C02_confined', 'Scalibr.Walk.C02_confined_two', 'Scalibr.Walk.C02_panic_only_from_extractor']
 ENGINE_IMPORTS = ['Scalibr.Properties.C02Engine']
 # ---------------------------------------------------------------------------------------------------------------
 
@@ -50,7 +52,7 @@ PARSER_THEOREMS = ['Scalibr.Parsers.C02_apk_total', 'Scalibr.Parsers.C02_gradle_
                    'Scalibr.Lockfiles.C02_packagelock_total', 'Scalibr.Lockfiles.C02_pipfile_total']
 THEOREMS = PARSER_THEOREMS + ENGINE_THEOREMS
 
-VIOLATING = ('panic', 'hang', 'oom', 'fatal')
+VIOLATING = ('panic', 'hang', 'oom', 'fatal', 'engine-panic', 'engine-hang', 'engine-err', 'nilpkg')
 MUTATIONS = {'quick': 20, 'thorough': 300}       # seeded mutations per fixture (c02gen -n)
 MODELLED_N = {'quick': 150, 'thorough': 1500}    # c03gen -n: n/2 malformed inputs for each of the five line formats
 LINE_FORMATS = ('apk', 'gradle', 'gemfile', 'dpkg', 'requirements')
@@ -88,12 +90,14 @@ def finding_key(case, f):
     """class predicate of a violation -> the key used in known_findings.txt:
          panic / fatal : (extractor, failure kind, normalised message kind)
          hang / oom    : (extractor, failure kind, decoder library the extractor called into = outermost third-party frame)
+         engine-panic / engine-hang / engine-err / nilpkg : Extract returned normally but the real filesystem.Run, fed with that very result,
+                         panicked / did not return / failed, or the result carries a nil package (keyed like panic)
     so a NEW crash of the same extractor with another signature (another message kind, another library) is still a VIOLATION.
     The exact panic site is NOT part of the class: a corrupt BoltDB faults wherever the mmap is touched first."""
     ext = (case.split(' ') + ['?', '?'])[1]
     st = f.get('st', '?')
     parts = [ext.replace('/', '-'), st]
-    if st in ('panic', 'fatal'):
+    if st in ('panic', 'fatal', 'engine-panic', 'engine-err'):
         parts.append(msg_kind(_unhex(f.get('msg'))))
     elif st in ('hang', 'oom'):
         lib_ = _unhex(f.get('lib'))
@@ -296,7 +300,10 @@ def stream(ctx):
         'numbers, long lines, NUL, invalid UTF-8, magic numbers of binary formats, random bytes), one fresh temp root per case, ScanInput built like '
         'filesystem.runExtractor does (FS=DirFS(root), Path, Root, Info from the opened file, Reader=the file). Violation = recovered panic | dead worker '
         '(fatal runtime error) | Extract not back 2 s after its 10 s context deadline | more than 512 MiB of heap objects in use at a 2 ms sample (process under SetMemoryLimit(512 MiB)). '
-        'Coverage is whatever the seeds and %d mutation classes reach; no claim is made about inputs not tried.' % (MUTATIONS[ctx.tier], 24))
+        'Member-level classes (zipmem, zipwrap, zipmeta:*) keep the archive valid and damage the metadata members of eggs / jars / wars (the only containers a built-in extractor reads; none reads tar). '
+        'After a normal return the returned (inventory, error) pair is replayed through the real filesystem.Run (walk, FileRequired, runExtractor, Inventory.Append, status) — '
+        'engine-panic / engine-hang / engine-err / nilpkg are violations too. '
+        'Coverage is whatever the seeds and %d mutation classes reach; no claim is made about inputs not tried.' % (MUTATIONS[ctx.tier], 27))
     ctx.extra['deadline_cases'] = judge.deadline
     ctx.extra['cases_path_not_accepted'] = judge.not_required
     ctx.extra['regression_witnesses_ok'] = judge.regressions_ok
@@ -326,7 +333,11 @@ def run(ctx):
                    'Go runtime: recover(), runtime/metrics heap accounting, debug.SetMemoryLimit, process exit status of a crashed worker',
                    '/repo/**/testdata as seed corpus (read by the harness, copied into temp roots; never opened in place by an extractor)',
                    'third-party decoders are NOT modelled: encoding/json, BurntSushi/toml, yaml.v3, encoding/xml, go-rpmdb (+sqlite), bbolt, debug/pe|elf|macho, archive/zip, spdx/cyclonedx readers']
-    ctx.assumptions = ['PARTIAL: only the parsers modelled for C03 are proved total; for every other extractor panic-/hang-/memory-freedom is SEARCHED (fuzzing), not proved',
+    ctx.assumptions = ['INTERFACE ASSUMPTION of the engine theorems (C02_panic_only_from_extractor, C02_confined): the walk-engine model takes an Extract result to be a list of '
+                       'package ids; that the real result is well formed for the engine (no nil element in Inventory.Packages, nothing runExtractor / Inventory.Append / the status code '
+                       'dereferences is missing) is modelled, not verified — it is CHECKED on every case by replaying the returned (inventory, error) through the real filesystem.Run '
+                       '(st=engine-panic | engine-hang | engine-err | nilpkg are violations)',
+                       'PARTIAL: only the parsers modelled for C03 are proved total; for every other extractor panic-/hang-/memory-freedom is SEARCHED (fuzzing), not proved',
                        '"bounded time and memory" = 10 s context deadline (+2 s grace) and 512 MiB heap in use per Extract call (2 ms sampler), observed by a watchdog; never a theorem',
                        'java/pomxmlnet needs the network (Requirements().Network == NetworkOnline) and is outside the property ("extractors that can run offline")',
                        'FileRequired is probed with default extractor configuration; a path it rejects is outside the property (status skip)',
